@@ -9,6 +9,7 @@ import (
 	"strconv"
 	"strings"
 	"sync"
+	"syscall"
 	"time"
 
 	"github.com/openebs/jiva/backend/dynamic"
@@ -229,7 +230,43 @@ func (st *Stack) EnableSystem() error {
 	}
 	st.ctrlLn = ln
 	st.serveController()
-	base := 20000 + 600*(shardNo()%64)
+	return st.enableAgents()
+}
+
+var (
+	portBlock     = -1
+	portBlockFile *os.File
+)
+
+// portBase claims a block of 256 TCP ports for this process (ssync receivers
+// listen on all interfaces, so two checks running at the same time must not
+// share a range). The claim is a flock on a file that lives as long as the process.
+func portBase() int {
+	if portBlock >= 0 {
+		return 20000 + 256*portBlock
+	}
+	dir := "/root/verif-scratch/.portlocks"
+	os.MkdirAll(dir, 0755)
+	start := (os.Getpid() * 31) % 150
+	for k := 0; k < 150; k++ {
+		b := (start + k) % 150
+		f, err := os.OpenFile(filepath.Join(dir, fmt.Sprintf("b%03d", b)), os.O_CREATE|os.O_RDWR, 0644)
+		if err != nil {
+			continue
+		}
+		if err := syscall.Flock(int(f.Fd()), syscall.LOCK_EX|syscall.LOCK_NB); err != nil {
+			f.Close()
+			continue
+		}
+		portBlock, portBlockFile = b, f
+		return 20000 + 256*b
+	}
+	panic("no free port block")
+}
+
+func (st *Stack) enableAgents() error {
+	bin := os.Getenv("VERIF_JIVA_BIN")
+	base := portBase()
 	for i, n := range st.Nodes {
 		if err := n.StartAgent(bin, base+40*i, base+40*i+39); err != nil {
 			return err
